@@ -16,7 +16,8 @@
                            start_of i  (this is the statement c08_pruning_sound)
      gammas_ok_in i        every gate gamma of the request is >= 1 (true for kappa of every QPD basis: C15; monitored) *)
 From Coq Require Import QArith String.
-From CKT Require Import Model.CutFinder Proofs.BestFirstP Proofs.BestFirstSpec Proofs.BestFirstFuel Extracted.Facts.
+From CKT Require Import Model.CutFinder Proofs.BestFirstP Proofs.BestFirstSpec Proofs.BestFirstSpec4 Proofs.BestFirstFuel
+  Extracted.Facts.
 Close Scope Q_scope.
 
 (* ---- (1) every action multiplies gamma_UB by a factor >= 1 ---- *)
@@ -76,20 +77,20 @@ Theorem c08_flag_sound : forall fuel i r, gammas_ok_in i ->
   (md_overhead (fr_meta r) <= c * c)%Q.
 Proof. exact flag_sound_spec. Qed.
 
-(* c08_pruning_sound as a FINITE-DOMAIN theorem (complete enumeration inside Coq): every circuit up to qubit
-   relabelling (qubits numbered in order of first use) with 1..3 two-qubit gates of gamma 3 or 7 on at most 4 qubits
-   (idle qubits included), every width limit 1..4, every cut-kind combination, every max_gamma, arbitrary
-   instruction ids / gate names.
+(* c08_pruning_sound as a FINITE-DOMAIN theorem (complete enumeration inside Coq, Proofs/BestFirstSpec*.v): every
+   circuit up to qubit relabelling (qubits numbered in order of first use) with 1..4 two-qubit gates of gamma 3 or 7
+   on at most 4 qubits (idle qubits included) — 14 510 circuits —, every width limit 1..4, every cut-kind
+   combination, every max_gamma, arbitrary instruction ids / gate names (lab).
    c08_pruning_sound_open (not proved; never contradicted by the brute-force oracle of harness/c08.py):
      forall gs gl wl W mg nq, gammas_ok gs -> (gl || wl = true) -> well-formed two-qubit gates on qubits < nq ->
        pruning_sound_for gs gl wl W mg nq.                                                                   *)
-Theorem c08_pruning_sound_bounded : forall lab c used, In (c, used) (circuits_upto 4 [3%Q; 7%Q] 3) ->
+Theorem c08_pruning_sound_bounded : forall lab c used, In (c, used) (circuits_upto 4 [3%Q; 7%Q] 4) ->
   forall nq W gl wl mg, used <= nq <= 4 -> 1 <= W <= 4 -> In (gl, wl) [(true, false); (false, true); (true, true)] ->
   pruning_sound_for (gates_from lab 0 c) gl wl W mg nq.
 Proof. exact pruning_sound_bounded. Qed.
 
 (* the two together: on the finite domain a reported minimum is the minimum of the SPECIFICATION *)
-Theorem c08_flag_sound_bounded : forall fuel i r lab c used, In (c, used) (circuits_upto 4 [3%Q; 7%Q] 3) ->
+Theorem c08_flag_sound_bounded : forall fuel i r lab c used, In (c, used) (circuits_upto 4 [3%Q; 7%Q] 4) ->
   fa_gates (fa_of i) = gates_from lab 0 c -> used <= nq_of i <= 4 -> 1 <= fi_W i <= 4 ->
   In (fi_gate_lo i, fi_wire_lo i) [(true, false); (false, true); (true, true)] ->
   find_cuts_full fuel i = Val r -> md_minimum_reached (fr_meta r) = true ->
@@ -150,7 +151,7 @@ Proof.
   intros g Ig q Eq. vm_compute in Ig. destruct Ig as [<-|[<-|[]]]; cbn in Eq; injection Eq as <-; discriminate.
 Qed.
 
-Example c08_ex_domain : In ([(0, 1, 3%Q); (1, 2, 7%Q)], 3) (circuits_upto 4 [3%Q; 7%Q] 3) /\
+Example c08_ex_domain : In ([(0, 1, 3%Q); (1, 2, 7%Q)], 3) (circuits_upto 4 [3%Q; 7%Q] 4) /\
   fa_gates (fa_of (f3_input 3 (fun _ => 0%Q))) = gates_from (fun k => (k, 2 + k)) 0 [(0, 1, 3%Q); (1, 2, 7%Q)].
 Proof. split; [vm_compute; tauto|reflexivity]. Qed.
 
